@@ -224,6 +224,44 @@ def swap_compares(tree) -> int:
     return n
 
 
+def reorder_pure_assigns(tree) -> int:
+    """Swap two adjacent statements `a = e1; b = e2` of a function body block when both right-hand sides are call-free, neither reads the other's
+    target, and the targets are distinct plain names (no evaluation-order or aliasing question)."""
+
+    def pure(e):
+        return not any(isinstance(x, (ast.Call, ast.Await, ast.Yield, ast.YieldFrom, ast.NamedExpr, ast.Lambda)) for x in ast.walk(e))
+
+    def names(e):
+        return {x.id for x in ast.walk(e) if isinstance(x, ast.Name)}
+
+    n = 0
+    for fn in ast.walk(tree):
+        if not isinstance(fn, (ast.FunctionDef, ast.AsyncFunctionDef)):
+            continue
+        for blk_owner in ast.walk(fn):
+            for fld in ("body", "orelse", "finalbody"):
+                blk = getattr(blk_owner, fld, None)
+                if not isinstance(blk, list):
+                    continue
+                i = 0
+                while i + 1 < len(blk):
+                    a, b = blk[i], blk[i + 1]
+                    if (
+                        isinstance(a, ast.Assign) and isinstance(b, ast.Assign)
+                        and len(a.targets) == 1 and len(b.targets) == 1
+                        and isinstance(a.targets[0], ast.Name) and isinstance(b.targets[0], ast.Name)
+                        and a.targets[0].id != b.targets[0].id
+                        and pure(a.value) and pure(b.value)
+                        and a.targets[0].id not in names(b.value) and b.targets[0].id not in names(a.value)
+                    ):
+                        blk[i], blk[i + 1] = b, a
+                        n += 1
+                        i += 2
+                    else:
+                        i += 1
+    return n
+
+
 def all_three(tree) -> int:
     return invert_branches(tree) + rename_locals(tree) + insert_noops(tree)
 
@@ -236,11 +274,15 @@ def all_seven(tree) -> int:
     return swap_compares(tree) + all_six(tree)
 
 
+def all_eight(tree) -> int:
+    return reorder_pure_assigns(tree) + all_seven(tree)
+
+
 def all_five(tree) -> int:
     return hoist_call_args(tree) + annotate_assigns(tree) + invert_branches(tree) + rename_locals(tree) + insert_noops(tree)
 
 
-TRANSFORMS = {"rename": rename_locals, "invert": invert_branches, "noops": insert_noops, "all": all_three, "annotate": annotate_assigns, "hoist": hoist_call_args, "all5": all_five, "noelse": no_else_after_return, "all6": all_six, "swapcmp": swap_compares, "all7": all_seven}
+TRANSFORMS = {"rename": rename_locals, "invert": invert_branches, "noops": insert_noops, "all": all_three, "annotate": annotate_assigns, "hoist": hoist_call_args, "all5": all_five, "noelse": no_else_after_return, "all6": all_six, "swapcmp": swap_compares, "all7": all_seven, "reorder": reorder_pure_assigns, "all8": all_eight}
 
 
 def refactored_copy(root: str = "/repo", transform=rename_locals) -> tuple[str, int]:
